@@ -5,6 +5,7 @@ package main
 import (
 	"fmt"
 	"go/token"
+	"go/types"
 	"strings"
 
 	"golang.org/x/tools/go/ssa"
@@ -13,7 +14,7 @@ import (
 func init() { register("C08", true, checkC08) }
 
 func checkC08(p *Prog, r *Report) {
-	r.Explain("READ: every call of a Read method (through io.Reader or on a concrete reader, bufio.Reader.Read included) in the library functions reachable from the decode entry points is classified: a forwarder (inside a method named Read that returns the count and error it got), a fill loop (re-issued for the remaining window until the count is satisfied, the count accounted before the error is looked at), or a violation — a single Read whose count is then trusted makes the result depend on how the reader chunks its data. io.ReadFull/ReadAtLeast/ReadAll/CopyN and bufio Peek/Discard are all-or-error by contract. BUFDEP: nothing reachable reads how many bytes happen to be buffered ((*bufio.Reader).Buffered) or takes a chunk-sized token (ReadSlice/ReadLine/ReadBytes/ReadString whose length the delimiter decides are accepted; Buffered is not). SEEKREL: a Seek is a position query, a relative seek, or an absolute rewind — never derived from a Read count.")
+	r.Explain("READ: every call of a Read method (through io.Reader or on a concrete reader, bufio.Reader.Read included) in the library functions reachable from the decode entry points is classified: a forwarder (inside a method named Read that returns the count and error it got), a fill loop (re-issued for the remaining window until the count is satisfied, the count accounted before the error is looked at), or a violation — a single Read whose count is then trusted makes the result depend on how the reader chunks its data. io.ReadFull/ReadAtLeast/ReadAll/CopyN and bufio Peek/Discard are all-or-error by contract. BUFDEP: nothing reachable reads how many bytes happen to be buffered ((*bufio.Reader).Buffered) or takes a chunk-sized token (ReadSlice/ReadLine/ReadBytes/ReadString whose length the delimiter decides are accepted; Buffered is not). WINSIZE: every bufio.NewReaderSize in the library is given a size that is a constant or at least computed without calling anything on a reader — the look-ahead window decides whether a long value is decoded or refused, so a size computed from the reader handed in (its Len(), Size(), dynamic type) makes the result differ between readers that deliver the same bytes. SEEKREL: a Seek is a position query, a relative seek, or an absolute rewind — never derived from a Read count.")
 	r.Trusted("io.ReadFull/ReadAtLeast: nil error ⇒ the window is full", "bufio.Reader.Peek/Discard all-or-error", "io.ReaderAt.ReadAt: n < len(p) ⇒ non-nil error")
 	dec, err := p.DecEntries()
 	if err != nil {
@@ -22,6 +23,8 @@ func checkC08(p *Prog, r *Report) {
 	}
 	fs := p.LibReachDirect(dec)
 	r.Extra("functions_analysed", len(fs))
+	ruleWinSize(p, r)
+	r.Floor("WINSIZE", 4)
 	nRead, nSafe := 0, 0
 	for _, f := range fs {
 		loops := findLoops(f)
@@ -405,6 +408,86 @@ func ruleSeekRel(p *Prog, r *Report, fs []*ssa.Function) {
 			} else {
 				r.OK("SEEKREL", key, at, "offset independent of Read counts")
 			}
+		})
+	}
+}
+
+
+// ruleWinSize: the size of every look-ahead buffer the library creates is a constant, or at least computed
+// without asking anything of a reader.
+func ruleWinSize(p *Prog, r *Report) {
+	hasRead := func(t types.Type) bool {
+		ms := p.SSA.MethodSets.MethodSet(t)
+		for i := 0; i < ms.Len(); i++ {
+			if ms.At(i).Obj().Name() == "Read" {
+				if sg, ok := ms.At(i).Type().(*types.Signature); ok && sg.Params().Len() == 1 && sg.Results().Len() == 2 {
+					return true
+				}
+			}
+		}
+		return false
+	}
+	var leaf func(v ssa.Value, d int, seen map[ssa.Value]bool) string
+	leaf = func(v ssa.Value, d int, seen map[ssa.Value]bool) string {
+		if seen[v] || d > 10 {
+			return ""
+		}
+		seen[v] = true
+		switch x := v.(type) {
+		case *ssa.Phi:
+			for _, e := range x.Edges {
+				if w := leaf(e, d+1, seen); w != "" {
+					return w
+				}
+			}
+		case *ssa.BinOp:
+			if w := leaf(x.X, d+1, seen); w != "" {
+				return w
+			}
+			return leaf(x.Y, d+1, seen)
+		case *ssa.Convert:
+			return leaf(x.X, d+1, seen)
+		case *ssa.ChangeType:
+			return leaf(x.X, d+1, seen)
+		case *ssa.Extract:
+			return leaf(x.Tuple, d+1, seen)
+		case *ssa.Call:
+			c := &x.Call
+			if c.IsInvoke() && hasRead(c.Value.Type()) {
+				return "the result of " + c.Method.Name() + "() on a reader"
+			}
+			for _, a := range c.Args {
+				if hasRead(a.Type()) {
+					return "the result of " + calleeName(c) + " applied to a reader"
+				}
+			}
+			if _, isB := c.Value.(*ssa.Builtin); isB {
+				for _, a := range c.Args {
+					if w := leaf(a, d+1, seen); w != "" {
+						return w
+					}
+				}
+			}
+		}
+		return ""
+	}
+	for _, f := range p.AllLibFns() {
+		eachCall(f, func(site ssa.CallInstruction) {
+			c := site.Common()
+			if !isCallTo(c, "bufio.NewReaderSize") || len(c.Args) != 2 {
+				return
+			}
+			key := fmt.Sprintf("%s | bufio.NewReaderSize", fnName(f))
+			at := p.posStr(instrPos(site))
+			if k, ok := constInt(c.Args[1]); ok {
+				r.OK("WINSIZE", key, at, fmt.Sprintf("constant window of %d bytes", k))
+				return
+			}
+			if w := leaf(c.Args[1], 0, map[ssa.Value]bool{}); w != "" {
+				r.Bad("WINSIZE", key, at, "the look-ahead window is sized by "+w+": which values fit the window — and are decoded instead of refused — then depends on the reader the caller supplies, not on the bytes it delivers")
+				return
+			}
+			r.OK("WINSIZE", key, at, "window size computed without asking anything of a reader")
 		})
 	}
 }
